@@ -951,6 +951,9 @@ class Evaluator:
                 lo = self.expr(e.slice.lower, fr) if e.slice.lower else NONE
                 hi = self.expr(e.slice.upper, fr) if e.slice.upper else NONE
                 stp = self.expr(e.slice.step, fr) if e.slice.step else NONE
+                if base[0] == "const" and isinstance(base[1], str) and all(x == NONE or (number(x) is not None and number(x).denominator == 1) for x in (lo, hi, stp)):
+                    # a slice of a constant string with constant bounds
+                    return const(base[1][slice(*(None if x == NONE else int(number(x)) for x in (lo, hi, stp)))])
                 if base[0] in ("tuple", "list") and not any(x[0] == "star" for x in base[1]) and stp == NONE:
                     nlo = 0 if lo == NONE else number(lo)
                     nhi = len(base[1]) if hi == NONE else number(hi)
@@ -998,15 +1001,30 @@ class Evaluator:
                 conds = tuple(self.truthy(self.expr(c, inner)) for c in g.ifs)
                 gens.append((it, conds))
             key_t, val_t = self.expr(e.key, inner), self.expr(e.value, inner)
-            if len(gens) == 1 and not gens[0][1] and gens[0][0][0] in ("tuple", "list") and len(gens[0][0][1]) <= 24 \
+            if len(gens) == 1 and gens[0][0][0] in ("tuple", "list") and len(gens[0][0][1]) <= 24 \
                     and not any(x[0] == "star" for x in gens[0][0][1]):
-                # a dict comprehension over a display of known length is the display of its entries (names re-evaluated per item: getattr(x, name))
+                # a dict comprehension over a display of known length is the display of its entries (names re-evaluated per item: getattr(x, name));
+                # tests are evaluated per item and must decide
                 items = []
+                decided = True
                 for item in gens[0][0][1]:
                     fr_i = Frame(fr.fn, fr.module, dict(fr.env), fr.self_cls, fr.depth)
                     self.bind_target(e.generators[0].target, item, fr_i)
-                    items.append((self.expr(e.key, fr_i), self.expr(e.value, fr_i)))
-                return ("dict", tuple(items))
+                    keep = True
+                    for c in e.generators[0].ifs:
+                        v = self.truthy(self.expr(c, fr_i))
+                        if v == FALSE:
+                            keep = False
+                            break
+                        if v != TRUE:
+                            decided = False
+                            break
+                    if not decided:
+                        break
+                    if keep:
+                        items.append((self.expr(e.key, fr_i), self.expr(e.value, fr_i)))
+                if decided:
+                    return ("dict", tuple(items))
             return ("dictcomp", key_t, val_t, tuple(gens))
         if isinstance(e, ast.Starred):
             return ("star", self.expr(e.value, fr))
@@ -1545,6 +1563,11 @@ class Evaluator:
                     return ("dict", tuple((("const", k), v) for k, v in kwargs))
                 if n == "getattr" and len(args) in (2, 3) and not kwargs and args[1][0] == "const" and isinstance(args[1][1], str) and len(args) == 2:
                     return self.attr(args[0], args[1][1], fr)
+                if n == "fields" and len(args) == 1 and not kwargs:
+                    # dataclasses.fields(obj): the declared fields of the (data)class of obj, in declaration order, as records with a constant name
+                    c_ = self.model.maybe_cls(args[0][1]) if args[0][0] == "cls" else self.type_of(args[0])
+                    if c_ is not None and any(k.is_dataclass for k in c_.mro()):
+                        return ("list", tuple(("new", "dataclasses.Field", (("name", const(nm_)),)) for nm_ in c_.all_fields().keys()))
                 if n in ("max", "min") and not kwargs and len(args) == 1:
                     # max / min of a display of known length (possibly held in a local name) is max / min of its items
                     a0 = _plain_display(args[0])
@@ -1569,6 +1592,8 @@ class Evaluator:
                 if n == "len" and len(args) == 1:
                     a = args[0]
                     if a[0] in ("list", "tuple") and not any(x[0] == "star" for x in a[1]):
+                        return lin({}, Fraction(len(a[1])))
+                    if a[0] == "const" and isinstance(a[1], str):
                         return lin({}, Fraction(len(a[1])))
                     if a[0] == "dict" and len({k_ for k_, _ in a[1]}) == len(a[1]) and all(k_[0] in ("enum", "const", "lin", "cls") for k_, _ in a[1]):
                         return lin({}, Fraction(len(a[1])))
@@ -1649,6 +1674,17 @@ class Evaluator:
                 fs = bc.resolve_all(name)
                 if len(fs) == 1 and fs[0].kind in ("method", "staticmethod", "classmethod"):
                     return self.call_function(fs[0], base, bc, args, kwargs, fr)
+            if base[0] == "const" and isinstance(base[1], str) and not kwargs and all(a[0] == "const" for a in args):
+                # methods of a constant string with constant arguments
+                cargs = [a[1] for a in args]
+                if name in ("upper", "lower", "strip", "lstrip", "rstrip", "title", "capitalize") and len(cargs) <= 1 and all(isinstance(x, str) for x in cargs):
+                    return const(getattr(base[1], name)(*cargs))
+                if name in ("startswith", "endswith") and len(cargs) == 1 and isinstance(cargs[0], str):
+                    return const(getattr(base[1], name)(cargs[0]))
+                if name in ("removeprefix", "removesuffix", "replace") and all(isinstance(x, str) for x in cargs) and len(cargs) in (1, 2):
+                    return const(getattr(base[1], name)(*cargs))
+                if name == "split" and len(cargs) <= 1 and all(isinstance(x, str) for x in cargs):
+                    return ("list", tuple(const(x) for x in base[1].split(*cargs)))
             if name == "__eq__" and len(args) == 1 and not kwargs:
                 return self.compare("==", base, args[0], fr)
             if name == "__ne__" and len(args) == 1 and not kwargs:
